@@ -1,6 +1,7 @@
 package checks
 
 import (
+	"sort"
 	"strconv"
 	"strings"
 )
@@ -8,3 +9,5 @@ import (
 func itoa(i int) string { return strconv.Itoa(i) }
 
 func join(s []string) string { return strings.Join(s, "; ") }
+
+func sortStrings(s []string) { sort.Strings(s) }
